@@ -445,14 +445,129 @@ pub fn test_case(ctx: &Ctx, case: &Case, rep: &mut Report) -> Result<(), Violati
     Ok(())
 }
 
+/// (external key algorithm, block signature version, replayed on another token?, key seed)
+type LegacyCase = (u8, u64, bool, u64);
+
+/// A third-party block in the LEGACY format: its external signature covers the payload and the
+/// previous block's *public key*, not the previous signature, so it is not bound to one token.
+/// Only the entry points named `unsafe_deprecated_*` may accept it; every verification that is
+/// not marked deprecated has to refuse the token, also when the bytes were read by
+/// `UnverifiedBiscuit::unsafe_deprecated_deserialize` and then verified with `verify`.
+fn legacy_case(case: &LegacyCase, rep: &mut Report) -> Result<(), Violation> {
+    use vcore::keys::Alg;
+    use vcore::wire::{WBlock, WExt, WProof};
+    let (ext_alg, version, replay, seed) = *case;
+    let kp = |i: u64, alg: Alg| KeyPlan { alg, seed: seed * 16 + i };
+    let rs = |k: &KeyPlan| RSecret::from_keypair(&k.keypair());
+    let root = kp(0, Alg::Ed);
+    let next = kp(1, Alg::Ed);
+    let next2 = kp(2, Alg::Ed);
+    let ext = kp(3, if ext_alg == 0 { Alg::Ed } else { Alg::P256 });
+    let plain = |name: &str| {
+        schema::Block {
+            symbols: vec![name.to_string()],
+            context: None,
+            version: Some(3),
+            facts_v2: vec![],
+            rules_v2: vec![],
+            checks_v2: vec![],
+            scope: vec![],
+            public_keys: vec![],
+        }
+        .encode_to_vec()
+    };
+    let tp_payload = plain("legacy_third_party");
+    // the legacy external signature, made for a token whose authority block announces `next`
+    let next_pub = rs(&next).public();
+    let mut legacy_msg = tp_payload.clone();
+    legacy_msg.extend_from_slice(&(next_pub.algorithm() as i32).to_le_bytes());
+    legacy_msg.extend_from_slice(&next_pub.bytes());
+    let ext_sig = rs(&ext).sign(&legacy_msg);
+    // the carrier: the token the block was made for, or another token of the same root whose
+    // holder chose the same next key (the replay the binding to the previous signature prevents)
+    let authority_payload = plain(if replay { "another_token" } else { "first_token" });
+    let mut signer = RefSigner::new(&rs(&root), &rs(&next), &authority_payload, 0, None);
+    let nk2 = rs(&next2).public();
+    let block_sig = rs(&next).sign(&if version == 0 {
+        payload_v0(&tp_payload, &nk2, Some(&ext_sig))
+    } else {
+        payload_v1(&tp_payload, &nk2, Some(&signer.last_signature()), Some(&ext_sig), version)
+    });
+    signer.token.blocks.push(WBlock {
+        block: tp_payload,
+        next_key: nk2.to_wire(),
+        signature: block_sig,
+        external: Some(WExt {
+            signature: ext_sig,
+            public_key: rs(&ext).public().to_wire(),
+        }),
+        version: if version == 0 { None } else { Some(version) },
+    });
+    signer.token.proof = WProof::Secret(rs(&next2).bytes());
+    let bytes = signer.token.encode();
+    let root_pub = root.public();
+    rep.evals(1);
+    rep.nontrivial(hash64(case));
+    rep.class(format!("legacy:ext-alg-{ext_alg}:version-{version}:replay-{replay}"));
+    // sanity of the construction: the reference verifier, which knows only the bound format,
+    // refuses it
+    if verify_token(&bytes, &rkey_of(&root_pub)).is_ok() {
+        return Err(v("harness-legacy-token-verifies-with-refcrypto".into(), hex::encode(&bytes)));
+    }
+    let b64 = base64::encode_config(&bytes, base64::URL_SAFE);
+    let entries: Vec<(&str, Result<bool, vcore::util::PanicInfo>)> = vec![
+        ("Biscuit::from", guard(|| Biscuit::from(&bytes, root_pub).is_ok())),
+        ("Biscuit::from_base64", guard(|| Biscuit::from_base64(&b64, root_pub).is_ok())),
+        ("UnverifiedBiscuit::from + verify", guard(|| UnverifiedBiscuit::from(&bytes).ok().map(|u| u.verify(root_pub).is_ok()).unwrap_or(false))),
+        (
+            "UnverifiedBiscuit::unsafe_deprecated_deserialize + verify",
+            guard(|| UnverifiedBiscuit::unsafe_deprecated_deserialize(&bytes).ok().map(|u| u.verify(root_pub).is_ok()).unwrap_or(false)),
+        ),
+    ];
+    for (entry, r) in entries {
+        match r {
+            Ok(false) => rep.class("legacy:refused"),
+            Ok(true) => {
+                return Err(v(
+                    "legacy-unbound-third-party-block-verifies".into(),
+                    format!("{entry} accepts a token whose third-party block (external key algorithm {ext_alg}, block signature version {version}) is signed in the legacy format, i.e. not over the previous signature{}\ntoken {}", if replay { "; the block was made for another token" } else { "" }, hex::encode(&bytes)),
+                ))
+            }
+            Err(p) => return Err(v(format!("panic:{}", p.site()), p.message)),
+        }
+    }
+    // the deprecated reader is the documented exception; it must not panic
+    if let Err(p) = guard(|| Biscuit::unsafe_deprecated_deserialize(&bytes, root_pub).is_ok()) {
+        return Err(v(format!("panic:{}", p.site()), p.message));
+    }
+    Ok(())
+}
+
 pub fn run(ctx: &Ctx, replay: Option<&serde_json::Value>) {
     if let Some(r) = replay {
+        if r["sub"].as_str() == Some("legacy-format") {
+            let case: LegacyCase = serde_json::from_value(r["case"].clone()).expect("bad replay case");
+            ctx.run_list("legacy-format", &[case], |c, r| legacy_case(c, r));
+            return;
+        }
         let case: Case = serde_json::from_value(r["case"].clone()).expect("bad replay case");
         ctx.run_list("scenarios", &[case], |c, r| test_case(ctx, c, r));
         return;
     }
     ctx.set_rule("pairs of tokens (A, B) (other root / same root / sibling attenuation) x a position in A x third-party block contents x external key algorithm; scenarios per case: honest request -> block -> append (bytes on both API paths, RefCrypto check of the external signature); replay of the response at every other position of A and every position of B through both APIs; re-attribution; 8 manipulations of the response message (raw and base64) and 3 of the request; 14 wire manipulation kinds at every block of the resulting token; table isolation, author fidelity and trust (RefAuthz) incl. authorizers looking at the block's facts with and without naming its key; non-trivial = at least one replay target differing from the honest (token, position); distinct = hash(case)");
     ctx.assume("UnverifiedBiscuit::append_third_party does not verify at append time by design: the resulting token must then fail verification");
+    ctx.assume("only entry points named unsafe_deprecated_* may accept the legacy (unbound) external signature format; `verify` after `UnverifiedBiscuit::unsafe_deprecated_deserialize` is a verification like any other");
+    let mut legacy = vec![];
+    for ext_alg in [0u8, 1] {
+        for version in [0u64, 1] {
+            for replay in [false, true] {
+                for seed in 0..ctx.tier.pick(4, 64) as u64 {
+                    legacy.push((ext_alg, version, replay, 0x1e9ac0 + seed));
+                }
+            }
+        }
+    }
+    ctx.run_list("legacy-format", &legacy, |c, r| legacy_case(c, r));
     let cases = ctx.tier.pick(3000, 60_000);
     let cfg = GenCfg {
         typed: true,
